@@ -97,6 +97,45 @@ Section W.
   Theorem wfq_stamp_order_service acts s' tr :
     wadm cfg acts -> wfq_run cfg (wfq0 cfg) acts = Some (s', tr) -> sel_ok (WS cfg) (wcls cfg) (wfq0 cfg) None tr.
   Proof. intros C H. apply (srv_stamp_order_gen _ _ rp _ _ _ D acts _ _ _ (reach0 _ _ _ _) C H). Qed.
+
+  Theorem wfq_stamp : wfix_first cfg = true -> forall s p,
+    R s -> wconf cfg p ->
+    exists s' w F,
+      wfq_act cfg s (FPut p) = Ok (s', []) /\
+      zlookup (wcls cfg p) (wweights cfg) = Some w /\
+      F == Qmax (fin (stm s) (wcls cfg p)) (vtime (stm s')) + (inject_Z (psize p) * 8) / (wrate cfg * inject_Z w) /\
+      fin (stm s') (wcls cfg p) == F /\
+      (forall c, c <> wcls cfg p -> insys (WS cfg) s <> [] -> fin (stm s') c == fin (stm s) c) /\
+      exists F', F' == F /\
+        items (store s') = items (store s) ++ [(now s, {| istamp := F'; iseq := Datatypes.S (seq s); ipkt := p |})].
+  Proof. intros Fx s p. apply (wfq_stamp_thm cfg rp wp s p Fx). Qed.
+
+  Theorem wfq_vtime s a s' o :
+    R s -> (forall p, a = FPut p -> wconf cfg p) -> wfq_act cfg s a = Ok (s', o) ->
+    match a with
+    | FPut _ =>
+        last_time (stm s') = now s /\
+        (insys (WS cfg) s = [] -> vtime (stm s') == 0) /\
+        (insys (WS cfg) s <> [] -> exists W, weight_sum (wweights cfg) (active (stm s)) = Some W /\ (0 < W)%Z /\
+                              vtime (stm s') == vtime (stm s) + (now s - last_time (stm s)) / inject_Z W)
+    | FChildEnd =>
+        last_time (stm s') = now s /\
+        exists W, weight_sum (wweights cfg) (active (stm s)) = Some W /\ (0 < W)%Z /\
+          (insys (WS cfg) s' <> [] -> vtime (stm s') == vtime (stm s) + (now s - last_time (stm s)) / inject_Z W /\
+                               forall c, fin (stm s') c == fin (stm s) c) /\
+          (insys (WS cfg) s' = [] -> vtime (stm s') == 0 /\ forall c, fin (stm s') c == 0)
+    | _ => stm s' = stm s
+    end.
+  Proof. apply (wfq_vtime_thm cfg rp wp). Qed.
+
+  Theorem wfq_active s c : R s -> (In c (active (stm s)) <-> exists p, In p (insys (WS cfg) s) /\ wcls cfg p = c).
+  Proof. apply (wfq_active_thm cfg rp wp). Qed.
+
+  Theorem wfq_last_time_le s : R s -> last_time (stm s) <= now s.
+  Proof. apply (wfq_last_le cfg rp wp). Qed.
+
+  Theorem wfq_reset s : R s -> insys (WS cfg) s = [] -> vtime (stm s) == 0 /\ forall c, fin (stm s) c == 0.
+  Proof. apply (wfq_reset_thm cfg rp wp). Qed.
 End W.
 
 Section V.
